@@ -15,7 +15,11 @@
 (***************************************************************************)
 EXTENDS Naturals, Sequences, FiniteSets, TLC
 
-CONSTANTS SlotsPerPage, Pages, NKeys, MaxBatch
+CONSTANTS SlotsPerPage, Pages, NKeys, MaxBatch,
+          Flushers,     \* 1 or 2: with two flushers the tombstones of one batch are appended flusher by flusher
+                        \* (hash mod 2), in either order - the log is then not in sequence order
+          TailRule      \* "drop": open puts the tail at the largest drop of the sequences round the ring (the code
+                        \* since fix F15); "max": right after the newest tombstone (the code as found)
 
 VARIABLES
     ring,       \* [0 .. Cap-1 -> <<hash, seq>>]   durable slots, <<0,0>> = empty
@@ -24,10 +28,11 @@ VARIABLES
     buf,        \* [0 .. SlotsPerPage-1 -> <<hash,seq>>] content of the page buffer
     seq,        \* next sequence number
     deleted,    \* [1..NKeys -> Nat]  sequence of the latest flushed delete of the key, 0 = not deleted
-    hist,       \* Seq(seq)  sequences of all flushed tombstones, in order
+    hist,       \* Seq(seq)  sequences of all flushed tombstones, in sequence order
+    lastpos,    \* ring position of the tombstone appended last (history variable; Cap = nothing appended yet)
     open        \* BOOLEAN
 
-vars == <<ring, slot, bufPage, buf, seq, deleted, hist, open>>
+vars == <<ring, slot, bufPage, buf, seq, deleted, hist, lastpos, open>>
 
 Cap == SlotsPerPage * Pages
 Empty == <<0, 0>>
@@ -42,7 +47,7 @@ Init ==
     /\ bufPage = 0 /\ buf = [i \in 0 .. SlotsPerPage - 1 |-> Empty]
     /\ seq = 1
     /\ deleted = [k \in 1 .. NKeys |-> 0]
-    /\ hist = <<>>
+    /\ hist = <<>> /\ lastpos = Cap
     /\ open = TRUE
 
 RECURSIVE AppendAll(_, _, _, _, _)
@@ -56,47 +61,63 @@ AppendAll(r, s, bp, b, ts) ==
              b2 == [b1 EXCEPT ![OffOf(s)] = Head(ts)] IN
          AppendAll(r1, s + 1, p, b2, Tail(ts))
 
-\* a batch of deletes is flushed: tombstones appended in sequence order, buffer page flushed
+\* the order in which the tombstones ts (numbered in sequence order) of one batch reach the log
+AppendOrders(ts) ==
+    IF Flushers = 1 THEN {ts}
+    ELSE LET part(r) == SelectSeq(ts, LAMBDA x : x[1] % 2 = r) IN {part(0) \o part(1), part(1) \o part(0)}
+
+\* a batch of deletes is flushed: tombstones appended (per flusher in sequence order), buffer page flushed
 AppendBatch(ks) ==
     /\ open
-    /\ LET ts == [i \in 1 .. Len(ks) |-> <<ks[i], seq + i - 1>>]
-           a == AppendAll(ring, slot, bufPage, buf, ts) IN
-       /\ ring' = WritePage(a.ring, a.bufPage, a.buf)
-       /\ slot' = a.slot /\ bufPage' = a.bufPage /\ buf' = a.buf
-       /\ seq' = seq + Len(ks)
-       /\ deleted' = [k \in 1 .. NKeys |->
-                        LET is == {i \in 1 .. Len(ks) : ks[i] = k} IN
-                        IF is = {} THEN deleted[k]
-                        ELSE seq + (CHOOSE i \in is : \A j \in is : j <= i) - 1]
-       /\ hist' = hist \o [i \in 1 .. Len(ks) |-> seq + i - 1]
+    /\ LET ts == [i \in 1 .. Len(ks) |-> <<ks[i], seq + i - 1>>] IN
+       \E ord \in AppendOrders(ts) :
+         LET a == AppendAll(ring, slot, bufPage, buf, ord) IN
+         /\ ring' = WritePage(a.ring, a.bufPage, a.buf)
+         /\ slot' = a.slot /\ bufPage' = a.bufPage /\ buf' = a.buf
+         /\ lastpos' = (a.slot - 1) % Cap
+    /\ seq' = seq + Len(ks)
+    /\ deleted' = [k \in 1 .. NKeys |->
+                     LET is == {i \in 1 .. Len(ks) : ks[i] = k} IN
+                     IF is = {} THEN deleted[k]
+                     ELSE seq + (CHOOSE i \in is : \A j \in is : j <= i) - 1]
+    /\ hist' = hist \o [i \in 1 .. Len(ks) |-> seq + i - 1]
     /\ UNCHANGED open
 
 \* process exit (graceful or crash: every append is flushed before it is acknowledged)
-Close == open /\ open' = FALSE /\ UNCHANGED <<ring, slot, bufPage, buf, seq, deleted, hist>>
+Close == open /\ open' = FALSE /\ UNCHANGED <<ring, slot, bufPage, buf, seq, deleted, hist, lastpos>>
 
 PosOfMax(r) == CHOOSE x \in 0 .. Cap - 1 : \A y \in 0 .. Cap - 1 : r[y][2] <= r[x][2]
 MaxSeq(r) == r[PosOfMax(r)][2]
+\* going round the ring the sequences rise (up to the interleaving of the flushers) and drop once, at the tail:
+\* the position with the largest drop from its predecessor (the last such position on ties, as max_by_key)
+Monus(a, b) == IF a > b THEN a - b ELSE 0
+DropAt(r, x) == Monus(r[(x + Cap - 1) % Cap][2], r[x][2])
+PosOfDrop(r) == CHOOSE x \in 0 .. Cap - 1 :
+                   /\ \A y \in 0 .. Cap - 1 : DropAt(r, y) <= DropAt(r, x)
+                   /\ \A y \in x + 1 .. Cap - 1 : DropAt(r, y) < DropAt(r, x)
+TailOf(r) == IF MaxSeq(r) = 0 THEN 1
+             ELSE IF TailRule = "max" THEN PosOfMax(r) + 1 ELSE PosOfDrop(r)
 
 \* TombstoneLog::open: tail right after the newest tombstone
 Open ==
     /\ ~open
-    /\ LET tail == IF MaxSeq(ring) = 0 THEN 1 ELSE PosOfMax(ring) + 1 IN
+    /\ LET tail == TailOf(ring) IN
        /\ slot' = tail
        /\ bufPage' = PageOf(tail)
        /\ buf' = PageContent(ring, PageOf(tail))
     /\ open' = TRUE
     /\ seq' = IF MaxSeq(ring) >= seq THEN MaxSeq(ring) + 1 ELSE seq
-    /\ UNCHANGED <<ring, deleted, hist>>
+    /\ UNCHANGED <<ring, deleted, hist, lastpos>>
 
 \* close (graceful or not) immediately followed by open
 Reopen ==
     /\ open
-    /\ LET tail == IF MaxSeq(ring) = 0 THEN 1 ELSE PosOfMax(ring) + 1 IN
+    /\ LET tail == TailOf(ring) IN
        /\ slot' = tail
        /\ bufPage' = PageOf(tail)
        /\ buf' = PageContent(ring, PageOf(tail))
     /\ seq' = IF MaxSeq(ring) >= seq THEN MaxSeq(ring) + 1 ELSE seq
-    /\ UNCHANGED <<ring, deleted, hist, open>>
+    /\ UNCHANGED <<ring, deleted, hist, lastpos, open>>
 
 Next ==
     \/ \E n \in 1 .. MaxBatch : \E ks \in [1 .. n -> 1 .. NKeys] : AppendBatch(ks)
@@ -107,20 +128,25 @@ Spec == Init /\ [][Next]_vars
 -------------------------------------------------------------------------------
 InRing(s) == \E x \in 0 .. Cap - 1 : ring[x][2] = s
 
+\* with two flushers a tombstone may be appended up to one batch earlier than its sequence says, so it is
+\* overwritten that much earlier when the ring wraps
+Slack == IF Flushers = 1 THEN 0 ELSE MaxBatch
+Retained(i) == i > Len(hist) - (Cap - 1 - Slack)
+
 \* the most recent Cap-1 flushed tombstones are all in the durable log
 RecentRetained ==
-    \A i \in 1 .. Len(hist) : i > Len(hist) - (Cap - 1) => InRing(hist[i])
+    \A i \in 1 .. Len(hist) : Retained(i) => InRing(hist[i])
 
 \* recovery lets the tombstone suppress the older copy: a key whose latest delete is among the most
 \* recent Cap-1 flushed tombstones reads as absent after any reopen
 FlushedDeleteAbsent ==
     \A k \in 1 .. NKeys :
-        (deleted[k] # 0 /\ \E i \in 1 .. Len(hist) : hist[i] = deleted[k] /\ i > Len(hist) - (Cap - 1))
+        (deleted[k] # 0 /\ \E i \in 1 .. Len(hist) : hist[i] = deleted[k] /\ Retained(i))
             => InRing(deleted[k])
 
-\* after open the tail is right after the newest tombstone
+\* the tail is right after the tombstone that was appended last (whatever its sequence)
 TailAfterNewest ==
-    (open /\ MaxSeq(ring) # 0) => (slot % Cap) = ((PosOfMax(ring) + 1) % Cap)
+    (open /\ lastpos # Cap) => (slot % Cap) = ((lastpos + 1) % Cap)
 
 BufferCoherent == open => \A i \in 0 .. SlotsPerPage - 1 :
                      buf[i] = ring[bufPage * SlotsPerPage + i]
